@@ -7,8 +7,8 @@ import CueVerif.Proofs.QuoteHash
 import CueVerif.Proofs.QuoteAscii
 namespace CueVerif.Quote
 
-/-- single-line round trip for either hash counter, outside the region where the raw copy
-reads as a multi-line opener -/
+/-- single-line round trip for any hash counter that, when positive, is the loop's answer and
+is never positive where the raw copy would read as a multi-line opener -/
 theorem roundtrip_single_with {E : Env} (hE : E.Ok) (slhc : Env → Form → Bytes → Nat)
     (hpos : ∀ f s h, slhc E f s = h → 1 ≤ h →
       slhcLoop E f s 1 = some h)
@@ -25,25 +25,20 @@ theorem roundtrip_single_with {E : Env} (hE : E.Ok) (slhc : Env → Form → Byt
   · have ha' : f.autoHash = false := by simpa using ha
     exact roundtrip_single_plain hE slhc f hf s hb hv hml (by simp [hashCountWith, ha'])
 
-theorem roundtrip_single {E : Env} (hE : E.Ok) (f : Form) (hf : f.WF) (s : Bytes) (hb : IsBytes s)
-    (hv : f.exact = true ∨ validUTF8 s = true) (hml : f.effMultiline s = false)
-    (ha : f.autoHash = false) : unquote (quote E f s) = .ok s :=
-  roundtrip_single_with hE singleLineHashCount
-    (fun f s h hs hp => slhc_pos_imp f s h hp hs) f hf s hb hv hml
-    (fun h => by rw [ha] at h; cases h)
-
-theorem roundtrip_hashes_partial {E : Env} (hE : E.Ok) (f : Form) (hf : f.WF) (s : Bytes)
-    (hb : IsBytes s) (hv : f.exact = true ∨ validUTF8 s = true) (hml : f.effMultiline s = false)
-    (h2 : startsTwoQuotes f.quote s = false) : unquote (quote E f s) = .ok s :=
-  roundtrip_single_with hE singleLineHashCount
-    (fun f s h hs hp => slhc_pos_imp f s h hp hs) f hf s hb hv hml (fun _ _ => h2)
-
-theorem roundtrip_hashes_fixed {E : Env} (hE : E.Ok) (f : Form) (hf : f.WF) (s : Bytes)
+/-- EVERY single-line form, with or without `WithOptionalHashes`, any number of '#' -/
+theorem roundtrip_single_all {E : Env} (hE : E.Ok) (f : Form) (hf : f.WF) (s : Bytes)
     (hb : IsBytes s) (hv : f.exact = true ∨ validUTF8 s = true) (hml : f.effMultiline s = false) :
-    unquote (quoteFixed E f s) = .ok s :=
-  roundtrip_single_with hE singleLineHashCountFixed
-    (fun f s h hs hp => (slhcFixed_pos_imp f s h hs hp).1) f hf s hb hv hml
-    (fun _ hp => (slhcFixed_pos_imp f s _ rfl hp).2)
+    unquote (quote E f s) = .ok s :=
+  roundtrip_single_with hE singleLineHashCount
+    (fun f s h hs hp => (slhc_pos_imp f s h hs hp).1) f hf s hb hv hml
+    (fun _ hp => (slhc_pos_imp f s _ rfl hp).2)
+
+/-- the OLD code round-trips outside the region where its raw copy read as a multi-line opener -/
+theorem roundtrip_hashes_old_partial {E : Env} (hE : E.Ok) (f : Form) (hf : f.WF) (s : Bytes)
+    (hb : IsBytes s) (hv : f.exact = true ∨ validUTF8 s = true) (hml : f.effMultiline s = false)
+    (h2 : startsTwoQuotes f.quote s = false) : unquote (quoteOld E f s) = .ok s :=
+  roundtrip_single_with hE singleLineHashCountOld
+    (fun f s h hs hp => slhcOld_pos_imp f s h hp hs) f hf s hb hv hml (fun _ _ => h2)
 
 /-- an environment in which printable = graphic = the ASCII range 0x20..0x7E (for witnesses) -/
 def asciiEnv : Env :=
@@ -52,38 +47,56 @@ def asciiEnv : Env :=
 
 theorem asciiEnv_ok : asciiEnv.Ok := by constructor <;> decide
 
-/-- the full-strength statement about `WithOptionalHashes` … -/
-def roundtrip_hashes_stmt : Prop :=
+/-- the full-strength statement for the OLD variant (before /repo a2b8800) … -/
+def roundtrip_hashes_old_stmt : Prop :=
   ∀ (E : Env), E.Ok → ∀ (f : Form), f.WF → ∀ (s : Bytes), IsBytes s →
     (f.exact = true ∨ validUTF8 s = true) → f.effMultiline s = false →
-    unquote (quote E f s) = .ok s
+    unquote (quoteOld E f s) = .ok s
 
-/-- … is false of the code as it is: `""x` quotes to `#"""x"#`, which reads as a multi-line
-opener -/
-theorem roundtrip_hashes_false : ¬ roundtrip_hashes_stmt := by
+/-- … was false: `""x` quoted to `#"""x"#`, which reads as a multi-line opener -/
+theorem roundtrip_hashes_old_false : ¬ roundtrip_hashes_old_stmt := by
   intro h
   have h1 := h asciiEnv asciiEnv_ok stringForm.withOptionalHashes (Or.inl ⟨rfl, rfl⟩)
     [0x22, 0x22, 0x78] (by intro b hb; simp at hb; omega) (Or.inr (by simp [validUTF8, decodeFirst])) (by decide)
-  rw [hashes_witness_fails asciiEnv (by decide) (by decide)] at h1
+  rw [hashes_witness_fails_old asciiEnv (by decide) (by decide)] at h1
   cases h1
 
-theorem slhcFixed_cases (E : Env) (f : Form) (s : Bytes) :
-    singleLineHashCountFixed E f s = 0 ∨ singleLineHashCountFixed E f s = singleLineHashCount E f s := by
-  unfold singleLineHashCountFixed
+theorem slhc_cases (E : Env) (f : Form) (s : Bytes) :
+    singleLineHashCount E f s = 0 ∨ singleLineHashCount E f s = singleLineHashCountOld E f s := by
+  unfold singleLineHashCount singleLineHashCountOld
   split
+  · left; rfl
   · split
     · left; rfl
     · right; rfl
-  · right; rfl
 
 theorem quote_ascii {E : Env} (f : Form) (hf : f.WF) (ha : f.asciiOnly = true) (s : Bytes) :
     AllAscii (quote E f s) :=
-  quoteWith_ascii singleLineHashCount (fun _ _ => Or.inr rfl) f
+  quoteWith_ascii singleLineHashCount (fun f s => slhc_cases E f s) f
     (by rcases hf with h | h <;> simp [h.1]) ha s
 
-theorem quoteFixed_ascii {E : Env} (f : Form) (hf : f.WF) (ha : f.asciiOnly = true) (s : Bytes) :
-    AllAscii (quoteFixed E f s) :=
-  quoteWith_ascii singleLineHashCountFixed (fun f s => slhcFixed_cases E f s) f
-    (by rcases hf with h | h <;> simp [h.1]) ha s
+/-- `\\u` / `\\U` escapes: the result is a rune ≤ MaxRune or a syntax error — never one of the
+loop's sentinels, never a panic (the int32 overflow repaired by /repo 4627158) -/
+theorem unquoteEscape_U_total (q : QuoteInfo) (e : Nat) (he : e = 0x75 ∨ e = 0x55) (t : Bytes) :
+    (∃ v t', unquoteEscape q e t = .ok (.char v true, t') ∧ v ≤ 0x10FFFF) ∨
+    unquoteEscape q e t = .error .syntax := by
+  rcases he with rfl | rfl
+  all_goals
+    simp only [unquoteEscape]
+    simp only [show ((0x75 : Nat) == 0x61) = false from rfl, show ((0x55 : Nat) == 0x61) = false from rfl]
+    simp (config := { decide := true }) only [Bool.false_eq_true, if_false, if_true, Bool.or_true, Bool.true_or,
+      beq_self_eq_true, Bool.or_false, Bool.false_or]
+    split
+    · right; rfl
+    · split
+      · right; rfl
+      · next v hv =>
+        split
+        · right; rfl
+        · next hc =>
+          left
+          refine ⟨v, _, rfl, ?_⟩
+          simp only [Bool.or_eq_true, decide_eq_true_eq, not_or] at hc
+          omega
 
 end CueVerif.Quote
